@@ -95,6 +95,22 @@ class InjectedBase(BaseException):
     """Injected fault that is not an ``Exception``."""
 
 
+class Planned(Exception):
+    """Marker base of the failures a scenario plans for user code (getters, cached functions, bodies, exits).
+
+    ``PLANNED`` holds one subclass per standard exception type, so that a harness can raise "a KeyError" or "an
+    AttributeError" -- types a library may itself catch for its own purposes -- and still recognise the failure
+    as planned with ``except Planned``.
+    """
+
+
+PLANNED = {"Exception": Planned}
+for _base in (KeyError, AttributeError, TypeError, ValueError, LookupError, IndexError, RuntimeError, AssertionError,
+              StopAsyncIteration, OSError, NotImplementedError):
+    PLANNED[_base.__name__] = type("Planned" + _base.__name__, (_base, Planned), {})
+PLANNED_NAMES = list(PLANNED)
+
+
 FAULT_TYPES = {
     "Injected": Injected,
     "TypeError": TypeError,
